@@ -431,6 +431,10 @@ def add_multipliers(R, chain, p_node=0.25, p_branch=0.35, root=None):
             br = nd.branches[0]
             br[2] = R.choice(MULTS[:-1])
             br[3] = R.choice([None, None, 0, 1, 2, 3, 4])
+            if R.chance(0.15):
+                nd.mult = R.choice([1, 2, 3])      # the last copy of a multiplied node anchors the unit
+        elif nd.branches and R.chance(p_node * 0.4):
+            nd.mult = R.choice([1, 2, 3])          # the last copy of a multiplied node carries the branches
 
 
 def mult_features(chain, feats=None, depth=0, top=True, in_unit=False):
@@ -453,6 +457,10 @@ def mult_features(chain, feats=None, depth=0, top=True, in_unit=False):
                 feats.add('node_mult_annot')
             if in_unit:
                 feats.add('node_mult_in_unit')
+            if nd.branches:
+                feats.add('node_mult_with_branch')
+            if any(b[2] is not None for b in nd.branches):
+                feats.add('multiplied_node_anchors_unit')
         for br in nd.branches:
             unit = br[2] is not None
             if unit:
@@ -605,13 +613,10 @@ def expand(chain):
     for nd in chain:
         brs = [[o, expand(sub), mult, between] for (o, sub, mult, between) in nd.branches]
         if nd.mult is not None:
-            for k in range(nd.mult):
-                c = Node(nd.name, nd.annot, nd.attrs)
-                c.nxt = None if k < nd.mult - 1 else nd.nxt
-                if k == nd.mult - 1:
-                    c.branches = [[o, s, None, None] for (o, s, _, _) in brs]
-                out.append(c)
-        elif len(brs) == 1 and brs[0][2] is not None:
+            # all but the last copy are plain nodes; the last copy carries rings / branches / the unit
+            for k in range(nd.mult - 1):
+                out.append(Node(nd.name, nd.annot, nd.attrs))
+        if len(brs) == 1 and brs[0][2] is not None:
             o, sub, n, between = brs[0]
             for k in range(n):
                 c = Node(nd.name, nd.annot, nd.attrs)
